@@ -12,7 +12,7 @@ import z3
 from . import frontend
 from .contracts import REG
 from .kinds import (Kind, parse_kind, alts, sort_of, is_refkind, union, opt, ref,
-                    INT, BOOL, REAL, STR, NONE, ANY, FN)
+                    INT, BOOL, REAL, STR, NONE, ANY, FN, FLAGS, NBITS)
 from .state import (State, V, Out, VNONE, vint, vbool, vstr, vreal, fresh_name, fresh_term,
                     Unsupported, SpecError)
 
@@ -128,10 +128,12 @@ class Engine:
             return None, st
         a = st.assume(cond)
         b = st.assume(z3.Not(cond))
-        if not self.feasible(a):
-            a = None
-        if not self.feasible(b):
-            b = None
+        if not self.spec_mode:
+            # (specifications are evaluated without pruning; only a branch that could raise is checked)
+            if not self.feasible(a):
+                a = None
+            if not self.feasible(b):
+                b = None
         self.paths += 1
         if self.paths > MAX_PATHS:
             raise Unsupported("path budget exceeded (%d)" % MAX_PATHS)
@@ -185,14 +187,38 @@ class Engine:
                 out.append((a, self._read_alt(a, r, fname, k)))
         return out
 
+    def field_keys(self, fname, k):
+        """heap arrays (key, range sort) that hold a field of (non-union) kind k"""
+        if k.tag == "none":
+            return []
+        if k.tag == "flags":
+            return [("F|%s|flags|b%d" % (fname, i), z3.BoolSort()) for i in range(NBITS)] + [("F|%s|flags|hi" % fname, z3.IntSort())]
+        return [(self._fkey(fname, k), sort_of(k))]
+
+    def flags_value(self, bits, hi):
+        term = hi * (1 << NBITS) + z3.Sum([z3.If(b, z3.IntVal(1 << i), z3.IntVal(0)) for i, b in enumerate(bits)])
+        return V(INT, term, aux={"bits": list(bits), "hi": hi})
+
+    def fresh_flags(self, prefix="fl"):
+        bits = [z3.Bool(fresh_name("%s_b%d" % (prefix, i))) for i in range(NBITS)]
+        hi = z3.Int(fresh_name(prefix + "_hi"))
+        return self.flags_value(bits, hi)
+
     def _read_alt(self, st, r, fname, k):
         if k.tag == "none":
             return VNONE
+        if k.tag == "flags":
+            keys = self.field_keys(fname, k)
+            bits = [z3.Select(self.arr(st, key, z3.IntSort(), srt), r) for key, srt in keys[:NBITS]]
+            hi = z3.Select(self.arr(st, keys[NBITS][0], z3.IntSort(), z3.IntSort()), r)
+            return self.flags_value(bits, hi)
         a = self.arr(st, self._fkey(fname, k), z3.IntSort(), sort_of(k))
         return V(k, z3.Select(a, r))
 
     def _compatible(self, have, want):
         if have == want:
+            return True
+        if want.tag == "flags" and have.tag in ("int",):
             return True
         if have.tag == "ref" and want.tag == "ref":
             return want[1] == "object" or self.P.is_subclass(have[1], want[1]) or self._shape_sub(have[1], want[1])
@@ -236,7 +262,19 @@ class Engine:
             tk = "T|%s|%s" % (fname, kind)
             st.heap[tk] = z3.Store(self.arr(st, tk, z3.IntSort(), z3.IntSort()), r, z3.IntVal(idx))
         k = ks[idx]
-        if k.tag != "none":
+        if k.tag == "flags":
+            val = self.to_int(val) if val.kind.tag == "bool" else val
+            if not (val.aux and "bits" in val.aux):
+                # every integer has exactly one decomposition into NBITS bits and a high part
+                fv = self.fresh_flags("dec")
+                st.pc = st.pc + (fv.t == val.t,)
+                val = fv
+            keys = self.field_keys(fname, k)
+            for (key, srt), b in zip(keys[:NBITS], val.aux["bits"]):
+                st.heap[key] = z3.Store(self.arr(st, key, z3.IntSort(), srt), r, b)
+            hk = keys[NBITS][0]
+            st.heap[hk] = z3.Store(self.arr(st, hk, z3.IntSort(), z3.IntSort()), r, val.aux["hi"])
+        elif k.tag != "none":
             fk = self._fkey(fname, k)
             st.heap[fk] = z3.Store(self.arr(st, fk, z3.IntSort(), sort_of(k)), r, val.t)
         return st
@@ -496,6 +534,9 @@ class Engine:
         if ta in num and tb in num:
             if ta == "real" or tb == "real":
                 return self.to_real(a).t == self.to_real(b).t
+            if a.aux and b.aux and "bits" in a.aux and "bits" in b.aux:
+                # two flag words are equal iff their bit views agree (unique decomposition)
+                return z3.And([x == y for x, y in zip(a.aux["bits"], b.aux["bits"])] + [a.aux["hi"] == b.aux["hi"]])
             if ta == "bool" and tb == "bool":
                 return a.t == b.t
             return self.to_int(a).t == self.to_int(b).t
@@ -552,6 +593,8 @@ class Engine:
             return VNONE
         if kind.tag == "tuple":
             return V(kind, tuple(self.fresh(k, prefix) for k in kind[1:]))
+        if kind.tag == "flags":
+            return self.fresh_flags(prefix)
         return V(kind, fresh_term(kind, prefix))
 
     # ------------------------------------------------------------------ names
@@ -816,6 +859,21 @@ class Engine:
 
     def e_BoolOp(self, node, st):
         is_and = isinstance(node.op, ast.And)
+        if self.spec_mode:
+            # specifications: and/or are boolean connectives; the right operand is evaluated under the
+            # assumption that makes it relevant (so guards such as `x is not None and x.f` stay well-defined)
+            acc = None
+            cur = st
+            terms = []
+            for i, vnode in enumerate(node.values):
+                b = z3.simplify(self.merged_bool(vnode, cur))
+                terms.append(b)
+                if (is_and and z3.is_false(b)) or ((not is_and) and z3.is_true(b)):
+                    break  # statically decided: the remaining operands are never evaluated
+                cur = cur.assume(b if is_and else z3.Not(b))
+            if not terms:
+                return [Out("ok", st, vbool(is_and))]
+            return [Out("ok", st, vbool(z3.And(terms) if is_and else z3.Or(terms)))]
 
         def go(i, st):
             outs = self.eval(node.values[i], st)
@@ -852,6 +910,22 @@ class Engine:
         return self.bind(self.eval(node.operand, st), k)
 
     def e_IfExp(self, node, st):
+        if self.spec_mode:
+            c = self.merged_bool(node.test, st)
+            sa = st.assume(c)
+            sb = st.assume(z3.Not(c))
+            if not z3.is_true(z3.simplify(c)) and not z3.is_false(z3.simplify(c)):
+                try:
+                    va = self.merged_value(node.body, sa)
+                    vb = self.merged_value(node.orelse, sb)
+                except SpecError:
+                    va = vb = None
+                if va is not None and va.kind == vb.kind and va.kind.tag in ("int", "bool", "real", "str", "ref", "list", "seq"):
+                    if va.aux and vb.aux and "bits" in va.aux and "bits" in vb.aux:
+                        bits = [z3.If(c, x, y) for x, y in zip(va.aux["bits"], vb.aux["bits"])]
+                        return [Out("ok", st, self.flags_value(bits, z3.If(c, va.aux["hi"], vb.aux["hi"])))]
+                    return [Out("ok", st, V(va.kind, z3.If(c, va.t, vb.t)))]
+
         def k(s, v):
             res = []
             for s1, c in self.truthy_outs(s, v):
@@ -1102,15 +1176,53 @@ class Engine:
         cb = _const_int(b.t)
         if ca is not None and cb is not None:
             return vint(ca & cb if isinstance(op, ast.BitAnd) else ca | cb)
+        # bit view of flag words: purely boolean
+        for x, c in ((a, cb), (b, ca)):
+            if c is not None and x.aux and "bits" in x.aux and 0 <= c < (1 << NBITS):
+                bits = x.aux["bits"]
+                if isinstance(op, ast.BitAnd):
+                    nb = [bits[i] if (c >> i) & 1 else z3.BoolVal(False) for i in range(NBITS)]
+                    return self.flags_value(nb, z3.IntVal(0))
+                nb = [z3.BoolVal(True) if (c >> i) & 1 else bits[i] for i in range(NBITS)]
+                return self.flags_value(nb, x.aux["hi"])
         if ca is None and cb is None:
             # both symbolic: exact for flag words through the bit view
+            va, vb = self.as_bits(a), self.as_bits(b)
+            if va is not None and vb is not None:
+                ha, hb = va.aux["hi"], vb.aux["hi"]
+                za = z3.is_int_value(ha) and ha.as_long() == 0
+                zb = z3.is_int_value(hb) and hb.as_long() == 0
+                if isinstance(op, ast.BitAnd) and (za or zb):
+                    return self.flags_value([z3.And(x, y) for x, y in zip(va.aux["bits"], vb.aux["bits"])], z3.IntVal(0))
+                if isinstance(op, ast.BitOr) and (za or zb):
+                    return self.flags_value([z3.Or(x, y) for x, y in zip(va.aux["bits"], vb.aux["bits"])], hb if za else ha)
             return V(INT, self.bits_op(op, a.t, b.t))
         x, c = (a.t, cb) if cb is not None else (b.t, ca)
         if c < 0:
             raise Unsupported("bit operator with negative constant")
         return V(INT, self.bits_const(op, x, c))
 
-    NBITS = 14
+    def as_bits(self, v):
+        """bit view of an int value: flag words, small non-negative constants and If-merges of those"""
+        if v.aux and "bits" in v.aux:
+            return v
+        return self._term_bits(v.t)
+
+    def _term_bits(self, t):
+        c = _const_int(t)
+        if c is not None:
+            if 0 <= c < (1 << NBITS):
+                return self.flags_value([z3.BoolVal(bool((c >> i) & 1)) for i in range(NBITS)], z3.IntVal(0))
+            return None
+        if z3.is_app_of(t, z3.Z3_OP_ITE):
+            x = self._term_bits(t.arg(1))
+            y = self._term_bits(t.arg(2))
+            if x is None or y is None:
+                return None
+            cnd = t.arg(0)
+            return self.flags_value([z3.If(cnd, p, q) for p, q in zip(x.aux["bits"], y.aux["bits"])],
+                                    z3.If(cnd, x.aux["hi"], y.aux["hi"]) if not x.aux["hi"].eq(y.aux["hi"]) else x.aux["hi"])
+        return None
 
     def bit(self, x, k):
         """k-th bit of integer term x (floor semantics, valid for negatives too)"""
@@ -1542,7 +1654,92 @@ class Engine:
                 if b is not None:
                     res.extend(self.exec_block(node.orelse, b))
             return res
-        return self.bind(self.eval(node.test, st), k)
+        outs = self.bind(self.eval(node.test, st), k)
+        return self.merge_outs(outs, len(st.pc))
+
+    # ---- state merging (keeps flag-decision code from exploding into one path per bit pattern) -------
+    def merge_outs(self, outs, n0):
+        oks = [o for o in outs if o.tag == "ok" and o.val is None]
+        if len(oks) < 2:
+            return outs
+        rest = [o for o in outs if not (o.tag == "ok" and o.val is None)]
+        merged = []
+        for o in oks:
+            for i, m in enumerate(merged):
+                j = self.merge_states(m.st, o.st, n0)
+                if j is not None:
+                    merged[i] = Out("ok", j)
+                    break
+            else:
+                merged.append(o)
+        return rest + merged
+
+    def _mergeable_val(self, a, b):
+        if a is b:
+            return True
+        if a.kind != b.kind:
+            return False
+        if a.kind.tag == "none":
+            return True
+        if a.t is not None and not isinstance(a.t, tuple) and hasattr(a.t, "eq") and a.t.eq(b.t):
+            return True
+        return a.kind.tag in ("int", "bool", "ref", "list", "dict", "odict", "real")
+
+    def merge_states(self, A, B, n0):
+        """merge two states that extend a common prefix of n0 path conditions; None if not mergeable"""
+        if A.pc[:n0] != B.pc[:n0] and not all(x.eq(y) for x, y in zip(A.pc[:n0], B.pc[:n0])):
+            return None
+        if set(A.env) != set(B.env):
+            return None
+        for n in A.env:
+            if not self._mergeable_val(A.env[n], B.env[n]):
+                return None
+        ea = list(A.pc[n0:])
+        eb = list(B.pc[n0:])
+        ca = z3.And(ea) if ea else z3.BoolVal(True)
+        cb = z3.And(eb) if eb else z3.BoolVal(True)
+        # heap values of string sort are not merged with If-terms (keeps string queries per path)
+        keys = set(A.heap) | set(B.heap)
+        newheap = {}
+        for key in keys:
+            x = A.heap.get(key)
+            y = B.heap.get(key)
+            if x is None:
+                x = self.base_arrays.get(key)
+            if y is None:
+                y = self.base_arrays.get(key)
+            if x is None or y is None:
+                return None
+            if x.eq(y):
+                newheap[key] = x
+            else:
+                rng = x.sort().range()
+                if rng == z3.StringSort() or z3.is_seq_sort(rng) if hasattr(z3, "is_seq_sort") else rng.kind() == z3.Z3_SEQ_SORT:
+                    return None
+                newheap[key] = z3.If(ca, x, y)
+        S = A.copy()
+        S.pc = A.pc[:n0] + (z3.Or(ca, cb),)
+        S.heap = newheap
+        S.alloc = A.alloc if A.alloc.eq(B.alloc) else z3.If(ca, A.alloc, B.alloc)
+        env = {}
+        for n, va in A.env.items():
+            vb = B.env[n]
+            if va is vb or va.kind.tag == "none" or (va.t is not None and not isinstance(va.t, tuple) and hasattr(va.t, "eq") and va.t.eq(vb.t)):
+                env[n] = va
+            elif va.aux and vb.aux and "bits" in va.aux and "bits" in vb.aux:
+                bits = [z3.If(ca, x, y) for x, y in zip(va.aux["bits"], vb.aux["bits"])]
+                env[n] = self.flags_value(bits, z3.If(ca, va.aux["hi"], vb.aux["hi"]))
+            else:
+                env[n] = V(va.kind, z3.If(ca, va.t, vb.t))
+        S.env = env
+        g = {}
+        for kk in set(A.ghost) | set(B.ghost):
+            x, y = A.ghost.get(kk), B.ghost.get(kk)
+            if x is None or y is None:
+                return None
+            g[kk] = x if x.eq(y) else z3.If(ca, x, y)
+        S.ghost = g
+        return S
 
     def s_Raise(self, node, st):
         if node.exc is None:
